@@ -771,6 +771,9 @@ class Model:
             Self: The instance of the model with the parameter removed.
 
         """
+        if name not in self._parameters:
+            msg = f"{name!r} not found in parameters"
+            raise KeyError(msg)
         self._remove_id(name=name)
         self._parameters.pop(name)
         return self
@@ -1123,6 +1126,9 @@ class Model:
             Self: The instance of the model with the variable removed.
 
         """
+        if name not in self._variables:
+            msg = f"{name!r} not found in variables"
+            raise KeyError(msg)
         if remove_stoichiometries:
             for rxn in self._reactions.values():
                 if name in rxn.stoichiometry:
@@ -1439,6 +1445,9 @@ class Model:
             Self: The instance of the model with the derived attribute removed.
 
         """
+        if name not in self._derived:
+            msg = f"{name!r} not found in derived"
+            raise KeyError(msg)
         self._remove_id(name=name)
         self._derived.pop(name)
         return self
@@ -1671,6 +1680,9 @@ class Model:
             Self: The instance of the model with the reaction removed.
 
         """
+        if name not in self._reactions:
+            msg = f"{name!r} not found in reactions"
+            raise KeyError(msg)
         self._remove_id(name=name)
         self._reactions.pop(name)
         return self
@@ -1768,6 +1780,9 @@ class Model:
             Self: The instance of the class after the readout has been removed.
 
         """
+        if name not in self._readouts:
+            msg = f"{name!r} not found in readouts"
+            raise KeyError(msg)
         self._remove_id(name=name)
         del self._readouts[name]
         return self
@@ -1878,6 +1893,9 @@ class Model:
             Self: The instance of the model with the specified surrogate model removed.
 
         """
+        if name not in self._surrogates:
+            msg = f"{name!r} not found in surrogates"
+            raise KeyError(msg)
         self._remove_id(name=name)
         surrogate = self._surrogates.pop(name)
         for output in surrogate.outputs:
@@ -1943,6 +1961,9 @@ class Model:
     @_invalidate_cache
     def remove_data(self, name: str) -> Self:
         """Remove data set from model."""
+        if name not in self._data:
+            msg = f"{name!r} not found in data"
+            raise KeyError(msg)
         self._remove_id(name=name)
         self._data.pop(name)
         return self
